@@ -40,12 +40,12 @@ RUN_LEAVES = {
     'executor = ProcessPoolExecutor(max_workers=1, mp_context=mp_context, initializer=initializer)': 'NewExecutor',
     'loop = asyncio.get_running_loop()': 'GetLoop',
     'await loop.run_in_executor(None, executor.shutdown)': 'ShutdownInThread',
-    'future = loop.run_in_executor(executor, func)': 'Submit',
+    'future = loop.run_in_executor(executor, partial(_call, func))': 'Submit',
     'process = list(executor._processes.values())[0]': 'GetProcess',
     'event.set()': 'EventSet',
     'ret = None': 'InitRet',
     'exc = None': 'InitExc',
-    'ret = await future': 'AwaitFuture',
+    'ret, exc = await future': 'AwaitFuture',
     'exc = e': 'StoreExc',
     'pass': 'Pass',
 }
@@ -190,6 +190,26 @@ def find(body, kind, name):
     return xs[0]
 
 
+CALL_TRY = ['return (func(), None)']
+CALL_HANDLER = ['exc = _ExceptionWithTraceback(e, e.__traceback__)', 'pickle.loads(pickle.dumps(exc))', 'return (None, exc)']
+
+
+def call_skeleton(tree) -> list[str]:
+    """`_call(func)`: the wrapper executed in the worker process"""
+    fn = find(tree.body, ast.FunctionDef, '_call')
+    if [a.arg for a in fn.args.args] != ['func']:
+        raise SkeletonError('_call arguments')
+    b = strip_doc(fn.body)
+    ok = (len(b) == 1 and isinstance(b[0], ast.Try) and not b[0].orelse and not b[0].finalbody and len(b[0].handlers) == 1
+          and [norm(x) for x in b[0].body] == CALL_TRY
+          and b[0].handlers[0].type is not None and norm(b[0].handlers[0].type) == 'BaseException' and b[0].handlers[0].name == 'e'
+          and [norm(x) for x in b[0].handlers[0].body] == CALL_HANDLER)
+    if not ok:
+        raise SkeletonError('_call: expected `try: return func(), None / except BaseException as e: exc = _ExceptionWithTraceback(...); '
+                            'pickle.loads(pickle.dumps(exc)); return None, exc`')
+    return ['CReturnValue', 'CCatchBaseException', 'CWrapTraceback', 'CRoundTrip', 'CReturnException']
+
+
 def skeleton(repo: Path) -> dict:
     p = repo / SRC
     if not p.exists():
@@ -208,6 +228,7 @@ def skeleton(repo: Path) -> dict:
     if any(isinstance(n, (ast.FunctionDef, ast.ClassDef)) for n in body):
         raise SkeletonError('run_in_process: unexpected nested definition')
     res['run'] = tr_run_body(strip_doc(inner[0].body), '_run')
+    res['call'] = call_skeleton(tree)
     res['outer'] = leaves([n for n in body if n is not inner[0]], OUTER_LEAVES, 'run_in_process')
     # position of the nested def relative to the outer leaves: must precede create_task
     idx = body.index(inner[0])
@@ -310,11 +331,11 @@ def translate(repo: Path) -> str:
         '| NewExecutor       (* executor = ProcessPoolExecutor(max_workers=1, mp_context=..., initializer=initializer) *)',
         '| GetLoop           (* loop = asyncio.get_running_loop() *)',
         '| ShutdownInThread  (* await loop.run_in_executor(None, executor.shutdown) *)',
-        '| Submit            (* future = loop.run_in_executor(executor, func) *)',
+        '| Submit            (* future = loop.run_in_executor(executor, partial(_call, func)) *)',
         '| GetProcess        (* process = list(executor._processes.values())[0] *)',
         '| EventSet          (* event.set() *)',
         '| InitRet | InitExc (* ret = None; exc = None *)',
-        '| AwaitFuture       (* ret = await future *)',
+        '| AwaitFuture       (* ret, exc = await future *)',
         '| StoreExc          (* exc = e *)',
         '| Pass.',
         '',
@@ -342,11 +363,15 @@ def translate(repo: Path) -> str:
         '',
         'Inductive lstmt := LContext | LNewQueue | LInitializer | LDefListen | LCreateListener | LYield | LPutSentinel | LAwaitListener.',
         '',
+        '(** `_call(func)`, executed in the worker: try: return func(), None / except BaseException as e: wrap, round-trip, return None, exc *)',
+        'Inductive cstmt := CReturnValue | CCatchBaseException | CWrapTraceback | CRoundTrip | CReturnException.',
+        '',
         'Inductive field := Freturned | Fraised | Fprocess | Fprocess_created_at | Fprocess_exited_at.',
         '',
         'Definition run_skeleton : stmt :=',
         '  ' + sk['run'] + '.',
         '',
+        'Definition call_skeleton : list cstmt := [' + '; '.join(sk['call']) + '].',
         'Definition outer_skeleton : list outer := [' + '; '.join(sk['outer']) + '].',
         'Definition init_skeleton : list init := [' + '; '.join(sk['init']) + '].',
         'Definition await_skeleton : list awaitst := [' + '; '.join(sk['await']) + '].',
